@@ -479,3 +479,41 @@ M("c14_make_allocated_claimed_ok", ["C14"], ["C14.R2"], [
                 let new_chunk = NonDummyChunk::new(ChunkSize::MINIMUM, None, A::default_or_panic())?;""")])
 M("c14_claimed_direction_swapped", ["C14"], ["C14.R3"], [
     ("src/chunk/header.rs", "if S::UP { UP_CHUNK_PTR } else { DOWN_CHUNK_PTR }", "if S::UP { DOWN_CHUNK_PTR } else { UP_CHUNK_PTR }")])
+
+# ---------------------------------------------------------------- C15
+M("c15_mut_vec_allocates_eagerly", ["C15"], ["C15.R1"], [
+    ("src/mut_bump_vec.rs", "fixed: unsafe { RawFixedBumpVec::prepare_allocation(&mut allocator, capacity)? },",
+     "fixed: unsafe { RawFixedBumpVec::allocate(&allocator, capacity)? },")])
+M("c15_prepare_range_moves_position", ["C15", "C01"], ["C15.R2", "C01.R2"], [
+    ("src/raw_bump.rs", """        // SAFETY: allocations never succeed for a dummy chunk
+        unsafe {
+            let chunk = self.as_non_dummy_unchecked();
+            Some(chunk.content_ptr_from_addr_range(range))
+        }""", """        // SAFETY: allocations never succeed for a dummy chunk
+        unsafe {
+            let chunk = self.as_non_dummy_unchecked();
+            chunk.set_pos_addr_and_align(if S::UP { range.start } else { range.end });
+            Some(chunk.content_ptr_from_addr_range(range))
+        }""")])
+M("c15_commit_down_no_move", ["C15", "C01"], ["C15.R4", "C01.R5"], [
+    ("src/traits/bump_allocator_typed.rs", """                let dst_end = start.add(cap);
+                let dst = dst_end.sub(len);
+                start.copy_to(dst, len);""", """                let dst_end = start.add(len);
+                let dst = dst_end.sub(len);
+                start.copy_to(dst, len);""")])
+M("c15_commit_rev_up_copies_cap", ["C15"], ["C15.R4"], [
+    ("src/traits/bump_allocator_typed.rs", """                let src = end.sub(len);
+
+                src.copy_to(dst, len);""", """                let src = end.sub(len);
+
+                src.copy_to(dst, cap);""")])
+M("c15_commit_up_pos_is_cap", ["C15"], ["C15.R4"], [
+    ("src/traits/bump_allocator_typed.rs", """            let end = start.add(len);
+
+            if S::UP {
+                chunk.set_pos_addr_and_align_from(end.addr().get(), T::ALIGN);""", """            let end = start.add(cap);
+
+            if S::UP {
+                chunk.set_pos_addr_and_align_from(end.addr().get(), T::ALIGN);""")])
+M("c15_grow_rev_copies_to_new_end_minus_cap", ["C15"], ["C15.R4"], [
+    ("src/mut_bump_vec_rev.rs", "let dst = end.as_ptr().sub(self.len);", "let dst = end.as_ptr().sub(cap);")])
